@@ -613,4 +613,346 @@ theorem run_SrcOk (ops : List Op) (cfgs : List Cfg) (past : List Op) (w : World)
     rw [e1, e2] at this
     exact this
 
+
+/-! ## at most one refresh per entry object -/
+
+/-- the entry whose lookup asked the caller to start a background refresh -/
+def refreshId : LRes → Option Nat
+  | .hit sv => if sv.refresh then some sv.eid else none
+  | .miss => none
+
+def refreshIds (outs : List LRes) : List Nat := outs.filterMap refreshId
+
+structure IdInv (T : Int) (trig : List Nat) (s : State) : Prop where
+  ok : AllE (Ok T) s.entries
+  lt : ∀ p ∈ s.entries, p.2.id < s.nextId
+  tlt : ∀ i ∈ trig, i < s.nextId
+  nd : trig.Nodup
+  fresh : ∀ p ∈ s.entries, p.2.refreshing = false → p.2.id ∉ trig
+  inj : ∀ p ∈ s.entries, ∀ q ∈ s.entries, p.2.id = q.2.id → p.1 = q.1
+
+theorem IdInv.sub {T T' : Int} {trig : List Nat} {s : State} {es' : List (Key × Entry)} (h : IdInv T trig s)
+    (hT : T ≤ T') (hsub : ∀ p ∈ es', p ∈ s.entries) : IdInv T' trig ⟨es', s.nextId⟩ :=
+  { ok := fun p hp => (h.ok p (hsub p hp)).mono hT
+    lt := fun p hp => h.lt p (hsub p hp)
+    tlt := h.tlt
+    nd := h.nd
+    fresh := fun p hp => h.fresh p (hsub p hp)
+    inj := fun p hp q hq => h.inj p (hsub p hp) q (hsub q hq) }
+
+theorem IdInv.update {T T' : Int} {trig trig' : List Nat} {s : State} {k : Key} {e0 e' : Entry}
+    (h : IdInv T trig s) (hT : T ≤ T') (hm : (k, e0) ∈ s.entries) (hid : e'.id = e0.id) (hok : Ok T' k e')
+    (htrig : (trig' = trig ∧ (e'.refreshing = false → e0.refreshing = false)) ∨
+             (trig' = trig ++ [e0.id] ∧ e0.refreshing = false ∧ e'.refreshing = true)) :
+    IdInv T' trig' ⟨store s.entries k e', s.nextId⟩ := by
+  have hother : ∀ p ∈ s.entries, p.1 ≠ k → p.2.id ≠ e0.id := by
+    intro p hp hk hi
+    exact hk (h.inj p hp (k, e0) hm hi)
+  refine ⟨?_, ?_, ?_, ?_, ?_, ?_⟩
+  · exact (h.ok.mono (fun _ _ hk => hk.mono hT)).store hok
+  · intro p hp
+    rcases mem_store.mp hp with rfl | ⟨hp, _⟩
+    · simp only [hid]; exact h.lt _ hm
+    · exact h.lt p hp
+  · intro i hi
+    rcases htrig with ⟨rfl, _⟩ | ⟨rfl, _, _⟩
+    · exact h.tlt i hi
+    · rcases List.mem_append.mp hi with hi | hi
+      · exact h.tlt i hi
+      · simp only [List.mem_singleton] at hi; subst hi; exact h.lt _ hm
+  · rcases htrig with ⟨rfl, _⟩ | ⟨rfl, hf, _⟩
+    · exact h.nd
+    · have := h.fresh _ hm hf
+      rw [List.nodup_append]
+      refine ⟨h.nd, by simp, ?_⟩
+      intro a ha b hb
+      simp only [List.mem_singleton] at hb; subst hb
+      intro hab; subst hab; exact this ha
+  · intro p hp hr
+    rcases mem_store.mp hp with rfl | ⟨hp', hk⟩
+    · rcases htrig with ⟨rfl, hf⟩ | ⟨rfl, _, ht⟩
+      · simp only [hid]; exact h.fresh _ hm (hf hr)
+      · simp only at hr; rw [ht] at hr; cases hr
+    · rcases htrig with ⟨rfl, _⟩ | ⟨rfl, _, _⟩
+      · exact h.fresh p hp' hr
+      · intro hi
+        rcases List.mem_append.mp hi with hi | hi
+        · exact h.fresh p hp' hr hi
+        · simp only [List.mem_singleton] at hi; exact hother p hp' hk hi
+  · intro p hp q hq hpq
+    rcases mem_store.mp hp with rfl | ⟨hp', hk⟩ <;> rcases mem_store.mp hq with rfl | ⟨hq', hk'⟩
+    · rfl
+    · simp only [hid] at hpq; exact absurd hpq.symm (hother q hq' hk')
+    · simp only [hid] at hpq; exact absurd hpq (hother p hp' hk)
+    · exact h.inj p hp' q hq' hpq
+
+
+theorem cloneAll_inj (es : List (Key × Entry)) (id0 : Nat) :
+    ∀ p ∈ cloneAll es id0, ∀ q ∈ cloneAll es id0, p.2.id = q.2.id → p.1 = q.1 := by
+  induction es generalizing id0 with
+  | nil => intro p hp; simp [cloneAll] at hp
+  | cons x rest ih =>
+    obtain ⟨k0, e0⟩ := x
+    intro p hp q hq hpq
+    simp only [cloneAll, List.mem_cons] at hp hq
+    rcases hp with rfl | hp <;> rcases hq with rfl | hq
+    · rfl
+    · obtain ⟨k, e, i, _, h1, _, rfl⟩ := mem_cloneAll hq
+      simp [cloneForReload] at hpq; omega
+    · obtain ⟨k, e, i, _, h1, _, rfl⟩ := mem_cloneAll hp
+      simp [cloneForReload] at hpq; omega
+    · exact ih _ p hp q hq hpq
+
+theorem step_IdInv (T : Int) (trig : List Nat) (w : World) (op : Op) (hpre : ∀ t, op.time = some t → T ≤ t)
+    (h : IdInv T trig w.st) :
+    IdInv (op.time.getD T) (trig ++ (refreshId (step w op).2).toList) (step w op).1.st := by
+  have hT : T ≤ op.time.getD T := by
+    cases ht : op.time with
+    | none => simp
+    | some t => simpa using hpre t ht
+  have hokstep := step_Ok T w op hpre h.ok
+  cases op with
+  | insert now key host qtype ttl ans nAns ns isIp =>
+    simp only [step, refreshId, Option.toList, List.append_nil] at hokstep ⊢
+    cases isIp with
+    | true => exact h.sub hT (fun p hp => by simpa [State.insert] using hp)
+    | false =>
+      simp only [State.insert, Bool.false_eq_true, if_false] at hokstep ⊢
+      refine ⟨hokstep, ?_, ?_, h.nd, ?_, ?_⟩
+      · intro p hp
+        rcases mem_store.mp hp with rfl | ⟨hp, _⟩
+        · simp [insEntry]
+        · have := h.lt p hp; simp only; omega
+      · intro i hi; have := h.tlt i hi; simp only; omega
+      · intro p hp _
+        rcases mem_store.mp hp with rfl | ⟨hp', _⟩
+        · intro hi; have := h.tlt _ hi; simp [insEntry] at this
+        · exact h.fresh p hp' ‹_›
+      · intro p hp q hq hpq
+        rcases mem_store.mp hp with rfl | ⟨hp', hk⟩ <;> rcases mem_store.mp hq with rfl | ⟨hq', hk'⟩
+        · rfl
+        · have := h.lt q hq'; simp [insEntry] at hpq; omega
+        · have := h.lt p hp'; simp [insEntry] at hpq; omega
+        · exact h.inj p hp' q hq' hpq
+  | lookup now key ign =>
+    have hT' : T ≤ now := hpre now rfl
+    simp only [Op.time, Option.getD_some] at hT hokstep ⊢
+    simp only [step, State.lookup] at hokstep ⊢
+    cases hf : find w.st.entries key with
+    | none =>
+      simp only [refreshId, Option.toList, List.append_nil]
+      exact h.sub hT' (fun p hp => hp)
+    | some e0 =>
+      have hm := find_mem hf
+      have hok0 := h.ok _ hm
+      rw [hf] at hokstep
+      simp only at hokstep ⊢
+      rcases lookupEntry_cases w.cfg now ign e0 with ⟨_, hc | hc⟩ | hc | hc
+      · obtain ⟨ttl, _, heq⟩ := hc
+        rw [heq] at hokstep ⊢
+        simp only [refreshId, freshServed, Bool.false_eq_true, if_false, Option.toList, List.append_nil]
+        have hp := lookupEntry_preserves heq
+        have hok' : Ok now key (packedApprox (touch e0 now) now).2 :=
+          hokstep _ (mem_store.mpr (Or.inl rfl))
+        refine h.update hT' hm hp.2.2.2.2.1 hok' (Or.inl ⟨rfl, ?_⟩)
+        intro hr
+        rcases packedApprox_entry (touch e0 now) now with he | ⟨he, _⟩ <;> rw [he] at hr <;>
+          simpa [touch, repack] using hr
+      · obtain ⟨_, heq⟩ := hc
+        rw [heq] at hokstep ⊢
+        simp only [refreshId, freshServed, Bool.false_eq_true, if_false, Option.toList, List.append_nil]
+        have hp := lookupEntry_preserves heq
+        have hok' : Ok now key (packedApprox (touch e0 now) now).2 :=
+          hokstep _ (mem_store.mpr (Or.inl rfl))
+        refine h.update hT' hm hp.2.2.2.2.1 hok' (Or.inl ⟨rfl, ?_⟩)
+        intro hr
+        rcases packedApprox_entry (touch e0 now) now with he | ⟨he, _⟩ <;> rw [he] at hr <;>
+          simpa [touch, repack] using hr
+      · obtain ⟨_, _, ttl, _, heq⟩ := hc
+        rw [heq] at hokstep ⊢
+        have hok' : Ok now key { touch e0 now with refreshing := true } :=
+          hokstep _ (mem_store.mpr (Or.inl rfl))
+        cases hr : e0.refreshing with
+        | true =>
+          have : refreshId (LRes.hit ⟨(touch e0 now).id, (touch e0 now).src, (touch e0 now).ans, (touch e0 now).nAns,
+              ttl, decide ((touch e0 now).nAns > 0) || (touch e0 now).ns == 1, true, !(touch e0 now).refreshing⟩) = none := by
+            simp [refreshId, touch, hr]
+          simp only [this, Option.toList, List.append_nil]
+          exact h.update hT' hm rfl hok' (Or.inl ⟨rfl, fun hx => by cases hx⟩)
+        | false =>
+          have : refreshId (LRes.hit ⟨(touch e0 now).id, (touch e0 now).src, (touch e0 now).ans, (touch e0 now).nAns,
+              ttl, decide ((touch e0 now).nAns > 0) || (touch e0 now).ns == 1, true, !(touch e0 now).refreshing⟩) = some e0.id := by
+            simp [refreshId, touch, hr]
+          simp only [this, Option.toList]
+          exact h.update hT' hm rfl hok' (Or.inr ⟨rfl, hr, rfl⟩)
+      · obtain ⟨_, _, heq⟩ := hc
+        rw [heq]
+        simp only [refreshId, Option.toList, List.append_nil]
+        exact h.sub hT' (fun p hp => (mem_erase.mp hp).1)
+  | janitor now choice =>
+    simp only [step, refreshId, Option.toList, List.append_nil]
+    exact h.sub hT (janitor_subset _ _ _ _)
+  | reload c =>
+    simp only [step, refreshId, Option.toList, List.append_nil, State.reload] at hokstep ⊢
+    refine ⟨hokstep, ?_, ?_, h.nd, ?_, cloneAll_inj _ _⟩
+    · intro p hp
+      obtain ⟨k, e, i, _, _, h2, rfl⟩ := mem_cloneAll hp
+      simpa [cloneForReload] using h2
+    · intro i hi; have := h.tlt i hi; simp only; omega
+    · intro p hp _ hi
+      obtain ⟨k, e, i, _, h1, _, rfl⟩ := mem_cloneAll hp
+      have := h.tlt _ hi
+      simp [cloneForReload] at this; omega
+  | reconf c =>
+    simp only [step, refreshId, Option.toList, List.append_nil]
+    exact h.sub hT (fun p hp => hp)
+  | refreshDone now key =>
+    have hT' : T ≤ now := hpre now rfl
+    simp only [step, refreshId, Option.toList, List.append_nil, State.refreshDone]
+    cases hf : find w.st.entries key with
+    | none => exact h.sub hT (fun p hp => hp)
+    | some e =>
+      have hm := find_mem hf
+      simp only
+      split
+      · split
+        · rename_i hd hr
+          have := (h.ok _ hm).rf hr
+          simp only at this; omega
+        · exact h.sub hT (fun p hp => hp)
+      · exact h.sub hT (fun p hp => (mem_erase.mp hp).1)
+  | remove key =>
+    simp only [step, refreshId, Option.toList, List.append_nil, State.remove]
+    exact h.sub hT (fun p hp => (mem_erase.mp hp).1)
+  | removeFamily base =>
+    simp only [step, refreshId, Option.toList, List.append_nil, State.removeFamily]
+    split
+    · exact h.sub hT (fun p hp => hp)
+    · exact h.sub hT (fun p hp => (List.mem_filter.mp hp).1)
+
+
+
+theorem refreshIds_cons (r : LRes) (rs : List LRes) :
+    refreshIds (r :: rs) = (refreshId r).toList ++ refreshIds rs := by
+  unfold refreshIds
+  cases h : refreshId r <;> simp [h]
+
+theorem run_IdInv (ops : List Op) (T : Int) (trig : List Nat) (w : World) (hm : Mono T ops)
+    (h : IdInv T trig w.st) :
+    IdInv (lastTime T ops) (trig ++ refreshIds (run w ops).2) (run w ops).1.st := by
+  induction ops generalizing T trig w with
+  | nil => simpa [run_nil, refreshIds, lastTime] using h
+  | cons op ops ih =>
+    rw [run_cons]
+    have := ih _ _ _ hm.head.2 (step_IdInv T trig w op hm.head.1 h)
+    simp only [lastTime, refreshIds_cons, ← List.append_assoc]
+    exact this
+
+theorem IdInv_empty (T : Int) : IdInv T [] State.empty :=
+  { ok := AllE_empty _
+    lt := fun p hp => by simp [State.empty] at hp
+    tlt := fun i hi => by simp at hi
+    nd := List.nodup_nil
+    fresh := fun p hp => by simp [State.empty] at hp
+    inj := fun p hp => by simp [State.empty] at hp }
+
+
+
+/-! ## the clock-independent part of the entry invariant (holds even if the clock jumps back) -/
+
+structure OkS (k : Key) (e : Entry) : Prop where
+  dn : e.deadlineNano = e.deadline
+  dl : e.deadline = e.src.t + e.src.eff * SEC
+  og : e.orig = e.src.t + e.src.ttl * SEC
+  key : e.src.key = k
+  pk : e.packed = true ↔ e.ns ≠ 2
+
+theorem step_OkS (w : World) (op : Op) (h : AllE OkS w.st.entries) : AllE OkS (step w op).1.st.entries := by
+  apply step_AllE (P := OkS) (Q := OkS) w op (fun k e hk => hk) _ _ _ _ h
+  · intro now key host qtype ttl ans nAns ns _
+    constructor <;> simp [insEntry]
+  · intro now key ign e e' r _ _ hP hl
+    have hpa : ∀ x : Entry, x = touch e now ∨ (x = repack (touch e now) now ∧ e.ns ≠ 2) ∨
+        x = { touch e now with refreshing := true } → OkS key x := by
+      intro x hx
+      rcases hx with rfl | ⟨rfl, hns⟩ | rfl
+      · exact ⟨hP.dn, hP.dl, hP.og, hP.key, hP.pk⟩
+      · exact ⟨hP.dn, hP.dl, hP.og, hP.key, by simp [repack, touch, hns]⟩
+      · exact ⟨hP.dn, hP.dl, hP.og, hP.key, hP.pk⟩
+    have hpe : (packedApprox (touch e now) now).2 = touch e now ∨
+        ((packedApprox (touch e now) now).2 = repack (touch e now) now ∧ e.ns ≠ 2) := by
+      rcases packedApprox_entry (touch e now) now with he | ⟨he, hns, _⟩
+      · exact Or.inl he
+      · exact Or.inr ⟨he, hns⟩
+    rcases lookupEntry_cases w.cfg now ign e with ⟨_, hc | hc⟩ | hc | hc
+    · obtain ⟨ttl, _, heq⟩ := hc
+      rw [heq] at hl; cases hl
+      exact hpa _ (hpe.elim Or.inl (fun h => Or.inr (Or.inl h)))
+    · obtain ⟨_, heq⟩ := hc
+      rw [heq] at hl; cases hl
+      exact hpa _ (hpe.elim Or.inl (fun h => Or.inr (Or.inl h)))
+    · obtain ⟨_, _, ttl, _, heq⟩ := hc
+      rw [heq] at hl; cases hl
+      exact hpa _ (Or.inr (Or.inr rfl))
+    · obtain ⟨_, _, heq⟩ := hc
+      rw [heq] at hl; cases hl
+  · intro c k e id _ hP _ _
+    constructor <;> simp only [cloneForReload]
+    · rw [hP.dn]; simp
+    · exact hP.dl
+    · exact hP.og
+    · exact hP.key
+    · exact hP.pk
+  · intro now key e _ _ hP _ _
+    exact ⟨hP.dn, hP.dl, hP.og, hP.key, hP.pk⟩
+
+theorem run_OkS (ops : List Op) (w : World) (h : AllE OkS w.st.entries) : AllE OkS (run w ops).1.st.entries := by
+  induction ops generalizing w with
+  | nil => exact h
+  | cons op ops ih => rw [run_cons]; exact ih _ (step_OkS w op h)
+
+/-- fresh / stale facts from the clock-independent invariant alone -/
+theorem served_bounds {k : Key} {e0 : Entry} {cfg : Cfg} {now : Int} {ign : Bool} {sv : Served}
+    (hok : OkS k e0) (h : (lookupEntry cfg now ign e0).2 = .hit sv) :
+    sv.src = e0.src ∧ sv.eid = e0.id ∧ sv.ans = e0.ans ∧ sv.nAns = e0.nAns ∧
+    (sv.stale = false → now < sv.src.t + (if ign then sv.src.ttl else sv.src.eff) * SEC ∧ sv.refresh = false) ∧
+    (sv.stale = true → cfg.optimistic = true ∧ sv.src.t + sv.src.eff * SEC ≤ now ∧
+      (cfg.staleTtl > 0 → now ≤ sv.src.t + sv.src.eff * SEC + cfg.staleTtl * SEC) ∧
+      sv.refresh = !e0.refreshing) := by
+  have hdl : lookupDeadline ign e0 = e0.src.t + (if ign then e0.src.ttl else e0.src.eff) * SEC := by
+    unfold lookupDeadline; cases ign <;> simp [hok.dl, hok.og]
+  rcases lookupEntry_cases cfg now ign e0 with ⟨hd, hc | hc⟩ | hc | hc
+  · obtain ⟨ttl, hp, heq⟩ := hc
+    rw [heq] at h; cases h
+    refine ⟨rfl, rfl, rfl, rfl, ?_, ?_⟩
+    · intro _; rw [hdl] at hd; exact ⟨hd, rfl⟩
+    · intro hs; cases hs
+  · obtain ⟨_, heq⟩ := hc
+    rw [heq] at h; cases h
+    refine ⟨rfl, rfl, rfl, rfl, ?_, ?_⟩
+    · intro _; rw [hdl] at hd; exact ⟨hd, rfl⟩
+    · intro hs; cases hs
+  · obtain ⟨_, hopt, ttl, hst, heq⟩ := hc
+    rw [heq] at h; cases h
+    obtain ⟨h1, h2, _, _⟩ := staleResp_some hst
+    rw [touch_deadlineNano, hok.dn, hok.dl] at h1 h2
+    refine ⟨rfl, rfl, rfl, rfl, ?_, ?_⟩
+    · intro hs; cases hs
+    · intro _; exact ⟨hopt, h1, h2, rfl⟩
+  · obtain ⟨_, _, heq⟩ := hc
+    rw [heq] at h; cases h
+
+theorem run_take_output (w : World) (ops : List Op) (i : Nat) (op : Op) (h : ops[i]? = some op) :
+    (run w ops).2[i]? = some (step (run w (ops.take i)).1 op).2 := by
+  induction ops generalizing w i with
+  | nil => simp at h
+  | cons o ops ih =>
+    cases i with
+    | zero => simp at h; subst h; simp [run_cons, run_nil]
+    | succ i =>
+      simp only [List.getElem?_cons_succ] at h
+      simp only [run_cons, List.getElem?_cons_succ, List.take_succ_cons]
+      exact ih _ _ h
+
+
 end DaeVerif.C08
